@@ -44,7 +44,9 @@ CHECKS = {
         "Generated comparisons (six operators, five rhs kinds, four dtypes, broadcast shapes, same/compatible/"
         "incompatible units incl. scaled dimensionless units) are judged against numpy comparisons of cgs values; "
         "elements closer than the tolerance are not judged; incompatible dimensions must raise; logical operators "
-        "are compared with numpy on generated shapes and complete truth tables.",
+        "are compared with numpy on generated shapes and complete truth tables. An exact sub-check compares neighbouring "
+        "int64 values around 2**53..2**62 (same unit; also with a numpy object on the left of unscaled dimensionless data) "
+        "against python integers.",
         "Trusted: vlib/unitmodel.py. Elements within 1e-9 (1e-5 with float32 operands) relative are not judged.",
         "DESIGN.md section 3 C07"),
     "C08": (
@@ -206,7 +208,8 @@ CHECKS = {
         "Thick maps of generated 3-D meshes (slabs thinner than cells at ~40%, dz up to the domain, depth "
         "resolution explicit or default, eight reductions) are compared per pixel with numpy's reduction over "
         "the column of located samples, scaled by the depth step and the position unit for sum/nansum; mask must "
-        "follow numpy's NaN semantics; the default depth resolution is inferred among the <=2 admissible values.",
+        "follow numpy's NaN semantics; the default depth resolution is inferred among the <=2 admissible values. A "
+        "second sub-check maps a uniform field in a box without holes with 1-100 depth samples: column sum = dz, mean = 1.",
         "Trusted: numpy reductions and brute-force location. Columns with a face-ambiguous sample are not "
         "judged; 2-D meshes (no normal direction) are outside the domain; default depth bounded to 48 samples.",
         "DESIGN.md section 3 C11"),
@@ -218,7 +221,9 @@ CHECKS = {
         "share Layers, Arrays, a resolution dict, origin, window and limits; every argument must be bit-identical "
         "after each call and each result must equal that of the same call on pristine copies. The finite option "
         "lattice (6+6+2 options x 4 levels x 2 value orders + pairwise) is enumerated completely with observable "
-        "effects (mode, norm class and limits, extra keywords, reduction data and unit, bins, weights).",
+        "effects (mode, norm class and limits, extra keywords, reduction data and unit, bins, weights, the colouring Array "
+        "of vector layers, a ready-made norm object). A third sub-check repeats a histogram call on a shared axes object "
+        "after other calls on it.",
         "Trusted: deep snapshot comparison; matplotlib only as a sink (Agg). Face-ambiguous sample points are "
         "avoided by construction in the shared mesh. Histories bounded to 5 calls.",
         "DESIGN.md section 3 C19"),
